@@ -106,7 +106,7 @@ func startNode(n *Node) error {
 	if err == nil {
 		return nil
 	}
-	for t0 := time.Now(); strings.Contains(err.Error(), "did not come up") && n.Alive() && time.Since(t0) < 90*time.Second; time.Sleep(100 * time.Millisecond) {
+	for t0 := time.Now(); strings.Contains(err.Error(), "did not come up") && n.Alive() && time.Since(t0) < 120*time.Second; time.Sleep(100 * time.Millisecond) {
 		if c, derr := net.DialTimeout("unix", n.Sock, time.Second); derr == nil {
 			c.Close()
 			return nil
@@ -190,7 +190,7 @@ func runRemote(c *Ctx, sh *shared, dir string) {
 		go func(i int) {
 			defer wg.Done()
 			t0 := time.Now()
-			runRemoteScenario(c, sh, filepath.Join(dir, scs[i].Name), scs[i])
+			guarded(sh, scs[i].Name, func(s *shared, again string) { runRemoteScenario(c, s, filepath.Join(dir, scs[i].Name+again), scs[i]) })
 			sh.mu.Lock()
 			sh.im.Extra["wall:"+scs[i].Name] = time.Since(t0).Round(100 * time.Millisecond).String()
 			sh.mu.Unlock()
@@ -208,10 +208,18 @@ func runRemote(c *Ctx, sh *shared, dir string) {
 		sh.mu.Unlock()
 	}
 	wg.Add(4)
-	go timed("throttled", func() { runThrottled(c, sh, filepath.Join(dir, "throttled")) })
-	go timed("cancels", func() { runCancels(c, sh, filepath.Join(dir, "cancels")) })
-	go timed("stalls", func() { runStalls(c, sh, filepath.Join(dir, "stalls")) })
-	go timed("standin", func() { runStandin(c, sh, filepath.Join(dir, "standin")) })
+	go timed("throttled", func() {
+		guarded(sh, "throttled", func(s *shared, again string) { runThrottled(c, s, filepath.Join(dir, "throttled"+again)) })
+	})
+	go timed("cancels", func() {
+		guarded(sh, "cancels", func(s *shared, again string) { runCancels(c, s, filepath.Join(dir, "cancels"+again)) })
+	})
+	go timed("stalls", func() {
+		guarded(sh, "stalls", func(s *shared, again string) { runStalls(c, s, filepath.Join(dir, "stalls"+again)) })
+	})
+	go timed("standin", func() {
+		guarded(sh, "standin", func(s *shared, again string) { runStandin(c, s, filepath.Join(dir, "standin"+again)) })
+	})
 	wg.Wait()
 }
 
@@ -268,7 +276,7 @@ func runRemoteScenario(c *Ctx, sh *shared, dir string, sc remoteScenario) {
 		return
 	}
 	defer func() { a.Stop(); a.KillStrays() }()
-	if !waitPing(a.Sock, idB, 30*time.Second) {
+	if !waitPing(a.Sock, idB, 90*time.Second) {
 		fail("node A never reaches node B", "harness-mesh")
 		return
 	}
@@ -426,7 +434,7 @@ func runRemoteScenario(c *Ctx, sh *shared, dir string, sc remoteScenario) {
 	// results of the remote unit asked on the submitting node, from a few offsets
 	if converged {
 		for _, p := range []int{0, 1, 1000, len(rb) - 1, len(rb), len(rb) + 1} {
-			got, ended, err := WorkResults(a.Sock, unitA, int64(p), 6*time.Second)
+			got, ended, err := WorkResults(a.Sock, unitA, int64(p), 20*time.Second)
 			var want []byte
 			if p < len(rb) {
 				want = rb[p:]
